@@ -342,3 +342,10 @@ pub fn replay(case: &Value) -> Result<Option<Violation>, String> {
     let _ = Case::from_json(case)?;
     gcsearch::replay(Attribution::C12, case)
 }
+
+pub fn rerun(_tier: Tier, seed: u64, run: u64) -> Option<Violation> {
+    if run >= 2_000_000 {
+        return None;
+    }
+    gcsearch::one_run(Attribution::C12, seed, run, gcsearch::workload_mixed, 2).violation
+}
